@@ -21,6 +21,10 @@ def mkbooks():
         # same formula texts in the same cells as workbook 0, different constants (a process-wide cache keyed by text would leak)
         {'Main': {'A1': 10, 'A2': 20, 'B1': '=A1+A2', 'B2': '=SUM(A1:A2)*2', 'C3': '=IF(B1>2,"x","y")'}, 'Other': {'A1': '=Main!B2+1', 'B1': 50}},
         {'Main': {'A1': 1, 'B2': '=A1+1', 'C3': 'eval(1)'}, 'Other': {'A1': 'os.system(1)'}},       # unsafe workbook
+        # workbooks whose translation FAILS in the middle of a formula (state left behind by a failed translation would leak into the next one)
+        {'Main': {'A1': 1, 'A2': 2, 'B1': '=A1+A2', 'B2': '=SUM(1;', 'C3': '=IF(B2>2,"x","y")'}, 'Other': {'A1': '=Main!B2+1', 'B1': 5}},      # malformed formula
+        {'Main': {'A1': 1, 'A2': 2, 'B1': '=B2+1', 'B2': '=B1*2', 'C3': '=IF(B1>2,"x","y")'}, 'Other': {'A1': '=Main!B2+1', 'B1': 5}},         # circular reference
+        {'Main': {'A1': 1, 'A2': 2, 'B1': '=A1+A2', 'B2': '=Nope!A1+1', 'C3': '=IF(B2>2,"x","y")'}, 'Other': {'A1': '=Main!B2+1', 'B1': 5}},   # missing sheet
     ]
     paths = []
     for i, sp in enumerate(specs):
@@ -44,7 +48,7 @@ def sha(t):
 
 def classify_exc(e):
     n = type(e).__name__
-    return {'E2PyclParserException': 'parser', 'E2PyclSafetyException': 'safety'}.get(n, 'other')
+    return {'E2PyclParserException': 'parser', 'E2PyclSafetyException': 'safety', 'E2PyclCellException': 'cell'}.get(n, 'other')
 
 
 def fresh(paths, p, e, safety):
@@ -92,7 +96,7 @@ def run_ops(paths, ops):
         except Exception as ex:  # noqa
             outs.append((classify_exc(ex), None))
         if kind in ('get', 'write') and oracle is None:
-            exp = fresh(paths, st['p'], st['e'], st['safety'])
+            exp = expected(paths, st['p'], st['e'], st['safety'])
             if outs[-1] != exp:
                 oracle = 'operation %d (%s) returned %r; a fresh parser with the settings in force (path %r, entry %r, safety %r) returns %r' % (
                     k + 1, kind, outs[-1], st['p'], st['e'], st['safety'], exp)
@@ -101,7 +105,7 @@ def run_ops(paths, ops):
 
 def cout(o):
     k, v = o
-    return {'none': 'PNone', 'parser': 'PParserExc', 'safety': 'PSafetyExc', 'other': 'POtherExc'}.get(k) or '(PText (Some %s))' % C.cstr(v)
+    return {'none': 'PNone', 'parser': 'PParserExc', 'safety': 'PSafetyExc', 'other': 'POtherExc', 'cell': 'POtherExc'}.get(k) or '(PText (Some %s))' % C.cstr(v)
 
 
 def cop(op):
@@ -118,7 +122,7 @@ def gen_ops(rng, n):
         elif r < 0.4:
             ops.append(['write'])
         elif r < 0.6:
-            ops.append(['path', rng.randrange(3)])
+            ops.append(['path', rng.randrange(6)])
         elif r < 0.8:
             ops.append(['entry', rng.randrange(len(ENTRIES))])
         elif r < 0.9:
@@ -129,17 +133,54 @@ def gen_ops(rng, n):
 
 
 _TABLE = None
+_FRESH = None
+_CODE = ("import sys,hashlib,warnings;warnings.filterwarnings('ignore');sys.path.insert(0,'/repo');sys.path.insert(0,'/verif/tools');"
+         "from props import c09;import json;a=json.loads(sys.argv[1]);print(json.dumps(c09.fresh(a['paths'],a['p'],a['e'],a['safety'])))")
+
+
+def fresh_results(paths):
+    """what a fresh Parser returns for every (workbook, entry, safety off) and (workbook, no entry, safety on) — each computed in its OWN
+    fresh process, so that nothing an earlier translation left behind in this process can influence the reference"""
+    global _FRESH
+    if _FRESH is None:
+        import json
+        from concurrent.futures import ThreadPoolExecutor
+        jobs = [(p, e, False) for p in range(len(paths)) for e in [None] + list(range(len(ENTRIES)))] + [(p, None, True) for p in range(len(paths))]
+
+        def one(job):
+            p, e, sf = job
+            env = dict(os.environ, PYTHONPATH='/repo:/verif/tools', PYTHONHASHSEED='0')
+            out = subprocess.run([C.PY, '-W', 'ignore', '-c', _CODE, json.dumps({'paths': paths, 'p': p, 'e': e, 'safety': sf})],
+                                 capture_output=True, text=True, env=env, timeout=300)
+            try:
+                r = json.loads(out.stdout.strip().splitlines()[-1])
+                return job, (r[0], r[1])
+            except Exception:  # noqa
+                return job, ('other', None)
+        with ThreadPoolExecutor(8) as ex:
+            _FRESH = dict(ex.map(one, jobs))
+    return _FRESH
+
+
+def expected(paths, p, e, safety):
+    if p is None:
+        return fresh(paths, None, e, safety)         # no workbook involved: 'The file path is not set'
+    fr = fresh_results(paths)
+    if safety and fr[(p, None, True)][0] == 'safety':
+        return ('safety', None)
+    return fr[(p, e, False)]
 
 
 def table(paths):
     global _TABLE
     if _TABLE is None:
+        fr = fresh_results(paths)
         rows, unsafe = [], []
-        for p in range(3):
-            if fresh(paths, p, None, True)[0] == 'safety':
+        for p in range(len(paths)):
+            if fr[(p, None, True)][0] == 'safety':
                 unsafe.append(p)
             for e in [None] + list(range(len(ENTRIES))):
-                k, v = fresh(paths, p, e, False)
+                k, v = fr[(p, e, False)]
                 tr = '(TOk %s)' % C.cstr(v) if k == 'text' else ('TParserExc' if k == 'parser' else 'TOtherExc')
                 rows.append('(%d%%nat, %s, %s)' % (p, 'None' if e is None else '(Some %d%%nat)' % e, tr))
         _TABLE = (C.clist(rows), C.clist(['%d%%nat' % u for u in unsafe]))
@@ -192,12 +233,14 @@ def corpus():
             {'ops': [['disable'], ['path', 2], ['get'], ['enable'], ['get']]},
             {'ops': [['path', 2], ['get'], ['disable'], ['get'], ['disable'], ['entry', 0], ['get']]},
             {'ops': [['get'], ['path', 1], ['write'], ['path', 0], ['get'], ['entry', 2], ['path', 1], ['get']]},
-            {'ops': [['path', 0], ['entry', 1], ['get'], ['entry', 3], ['disable'], ['get'], ['enable'], ['enable'], ['get']]}]
+            {'ops': [['path', 0], ['entry', 1], ['get'], ['entry', 3], ['disable'], ['get'], ['enable'], ['enable'], ['get']]},
+            {'ops': [['path', 3], ['get'], ['path', 0], ['get']]}, {'ops': [['path', 4], ['get'], ['path', 1], ['get'], ['write']]},
+            {'ops': [['path', 5], ['get'], ['get'], ['path', 0], ['entry', 1], ['get']]}, {'ops': [['path', 3], ['entry', 3], ['get'], ['path', 1], ['get']]}]
 
 
 def run(R, tier):
-    R.coverage['rule'] = ('sequences of 3-9 facade calls (set path over 3 workbooks incl. an unsafe one, set/replace entry cell, enable/disable safety, '
-                          'get, write) on one Parser, each get/write compared with a fresh parser configured with the settings in force; plus the '
+    R.coverage['rule'] = ('sequences of 3-9 facade calls (set path over 6 workbooks: two sharing formula texts, an unsafe one, and three whose translation fails inside a formula (malformed, circular, missing sheet); set/replace entry cell, enable/disable safety, '
+                          'get, write) on one Parser, each get/write compared with what a fresh parser IN A FRESH PROCESS returns for the settings in force; plus the '
                           'text hash across subprocesses with several PYTHONHASHSEEDs and from 4 concurrent threads; non-trivial = a setter after a get')
     C.proof_obligations(R, 'theories/Props/C09.v', 'Props.C09', TARGETS)
     if any('Coq build failed' in b for b in R.broken):
